@@ -125,6 +125,8 @@ def run_oracles(prog, meta, sessions):
     latest_ops = {}
     prev_nodes = {}
     shadow = Shadow()
+    td_exec_since_bu = False        # a top-down session executed something since the last bottom-up build (or the start)
+    td_exec_before_last_bu = False  # ... as it was when the last bottom-up build started: the recorded finding O4 needs it
     task_out = {}
     wf = prog.kind == 'wf'
     for si, s in enumerate(sessions):
@@ -211,7 +213,7 @@ def run_oracles(prog, meta, sessions):
         # ---- C03: probe after a complete bottom-up build
         if s.step in meta.get('probe_steps', {}) and not ab and not had_abort and wf:
             stale = sorted(t for t in counts if t in completed)
-            mixed = meta.get('mode') == 'mixed'
+            mixed = meta.get('mode') == 'mixed' and td_exec_before_last_bu
             if prog.uses_failing:
                 if stale and not s.errs and not mixed:
                     out.append(('C18', 'stale-after-erring-bottom-up', '%s: after a bottom-up build during which checkers failed, task(s) %r were left stale (reused although a dependency check failed or was skipped)' % (where, stale)))
@@ -450,6 +452,10 @@ def run_oracles(prog, meta, sessions):
             out.append(('C18', 'errors-not-reported', '%s: checkers returned errors %r during validation, the session reports %r' % (where, ev_errs, s.errs)))
 
         prev_nodes = nodes
+        if is_bu:
+            td_exec_before_last_bu = td_exec_since_bu; td_exec_since_bu = False
+        elif counts and s.step not in meta.get('probe_steps', {}):
+            td_exec_since_bu = True
         for e in s.events:
             f = e.split()
             if f[0] == 'XS': completed.discard(int(f[1]))
